@@ -128,7 +128,7 @@ def disengageEvsV (closes : Bool) (cf : ModeCfg) (shaped tinted : Bool) : List E
   enableMouse cf 0 ++ enablePasting cf false ++ disableFocusReporting cf
 
 /-- THE SWITCH for the hyperlink repair: `false` = pinned tree, `true` once fixes/C04-exit-url.patch is committed in /repo -/
-def currentClosesLink : Bool := false
+def currentClosesLink : Bool := true
 
 /-- tscreen.go:2099 disengage (Suspend and, through finalize, Fini) -/
 def disengageV (closes : Bool) (cf : ModeCfg) (st : MState) : MState × List Ev :=
@@ -147,7 +147,7 @@ def finiV (closes : Bool) (cf : ModeCfg) (st : MState) : MState × List Ev :=
   else ({ (disengageV closes cf st).1 with finished := true }, (disengageV closes cf st).2 ++ [.call .close])
 
 /-- THE SWITCH for the resize repair: `false` = pinned tree, `true` once fixes/C04-resize-after-resume.patch is committed -/
-def currentResizeChecksCells : Bool := false
+def currentResizeChecksCells : Bool := true
 
 /-- `resize()` repaired (fixes/C04-resize-after-resume.patch) also compares the size of the cell buffer, which engage
     re-creates from the tty without updating `t.w`/`t.h`: when the buffer disagrees with `t.w`/`t.h` the resize is carried
